@@ -99,7 +99,7 @@ def r2(c, A):
         c.violated("C06.R2", repo.loc(m, A.fn), "apply_acl/fatal-raise", f"{len(fatal)} `raise AclError(...)` statements (expected one)", key_text="raise-count")
     else:
         r = fatal[0]
-        f = A.gm.formula(r, env)
+        f = A.gm.formula(r, env, skip_early=True)
         spec = G.And(G.Not(G.Atom("match")), G.Atom("fatal_acl"))
         c.check("C06.R2", G.equivalent(f, spec), repo.loc(m, r), "apply_acl/fatal-raise/guard",
                 f"AclError raised under {G.show(f)}; expected ¬match ∧ fatal_acl", key_text="raise-guard")
